@@ -28,6 +28,9 @@ ALLOW = [
     r'^<fixedbitset::FixedBitSet as std::ops::Index<usize>>::index$',
     r'^fixedbitset::FixedBitSet::(clear|len|set|put|contains|insert|new|is_empty|count_ones|toggle|set_range|insert_range|ones|is_clear)$',
     r'^<&(mut )?std::vec::Vec<T, A> as std::iter::IntoIterator>::into_iter$',
+    # read-only iteration over the set / unset bits: borrows the blocks, owns two words of state
+    r"^fixedbitset::FixedBitSet::(zeroes|count_zeroes|minimum|maximum|is_full|as_slice|count_ones)$",
+    r"^<fixedbitset::(Ones|Zeroes)<'a> as std::iter::(Iterator|DoubleEndedIterator)>::(next|next_back|size_hint)$",
 ]
 ALLOW_RE = [re.compile(x) for x in ALLOW]
 FORBID_STD = re.compile(r'^std::(collections|string|thread|io|fs|env|process|net|sync::(mpsc|Arc|Mutex|RwLock|Condvar|Barrier)|rc|ffi|path|time)\b|^<std::(collections|string)')
